@@ -459,23 +459,45 @@ func TestC03(t *testing.T) {
 					}
 				}
 				m.logf("forgedWhileQueued(pipe%d, ids %08x+1..3)", pi, maxID)
+				// If the Send gets through after all (a pipe was free: the starved state is best effort),
+				// the request has been seen and the guessed ids are no longer forgeries: no verdict then.
+				sent := false
 				select {
 				case err := <-sendDone:
-					m.fail("queued-send-aborted", "a Send waiting in the queue (all pipes busy, request never transmitted) returned %v after a peer sent messages carrying guessed request ids", err)
-					_ = f.Close()
-					return
+					if err != nil {
+						m.fail("queued-send-aborted", "a Send waiting in the queue (all pipes busy, request never transmitted) returned %v after a peer sent messages carrying guessed request ids", err)
+						_ = f.Close()
+						return
+					}
+					sent = true
 				case <-time.After(30 * time.Millisecond):
 				}
-				_ = f.SetOption(mangos.OptionRecvDeadline, 30*time.Millisecond)
-				b, err := f.Recv()
-				if err == nil {
-					m.fail("forged-reply-delivered", "Recv returned %q for a request that was never transmitted (a peer guessed its id)", b)
+				if !sent {
+					_ = f.SetOption(mangos.OptionRecvDeadline, 30*time.Millisecond)
+					b, err := f.Recv()
+					if err == nil {
+						// delivered: legitimate only if the request was transmitted meanwhile, in which
+						// case the Send is about to report success
+						select {
+						case serr := <-sendDone:
+							sent = true
+							if serr != nil {
+								m.fail("forged-reply-delivered", "Recv returned %q for a request whose Send then failed with %v (a peer guessed its id)", b, serr)
+							}
+						case <-time.After(time.Second):
+							m.fail("forged-reply-delivered", "Recv returned %q for a request that was never transmitted (a peer guessed its id; its Send is still waiting)", b)
+						}
+					}
 				}
 				_ = f.Close()
-				select {
-				case <-sendDone:
-				case <-time.After(3 * time.Second):
-					m.fail("send-stuck", "Send on a closed context did not return within 3s")
+				if !sent {
+					select {
+					case <-sendDone:
+					case <-time.After(3 * time.Second):
+						m.fail("send-stuck", "Send on a closed context did not return within 3s")
+					}
+				} else {
+					stats.Class("forged_case_without_verdict_send_got_through")
 				}
 				stats.Class("forged_reply_for_queued_request")
 				m.canon += "F"
